@@ -3812,8 +3812,34 @@ where
                 message: "Bistellar flips require a PL-manifold (vertex-link validation)",
             });
         }
-        let (tds, kernel) = (&mut self.tri.tds, &self.tri.kernel);
-        repair_delaunay_with_flips_k2_k3(tds, kernel, None, topology)
+        let tds_snapshot = self.tri.tds.clone();
+        let result = {
+            let (tds, kernel) = (&mut self.tri.tds, &self.tri.kernel);
+            repair_delaunay_with_flips_k2_k3(tds, kernel, None, topology)
+        }
+        .and_then(|stats| self.canonicalize_orientation_after_repair().map(|()| stats));
+        if result.is_err() {
+            self.tri.tds = tds_snapshot;
+        }
+        result
+    }
+
+    /// Flip-based repair mutates cell orderings; restore canonical positive geometric
+    /// orientation before exposing the repaired triangulation (as insertion already does).
+    fn canonicalize_orientation_after_repair(&mut self) -> Result<(), DelaunayRepairError>
+    where
+        K::Scalar: ScalarSummable,
+    {
+        if self.tri.tds.number_of_cells() == 0 {
+            return Ok(());
+        }
+        self.tri
+            .normalize_and_promote_positive_orientation()
+            .map_err(|err| DelaunayRepairError::PostconditionFailed {
+                message: format!(
+                    "Geometric orientation normalization failed after Delaunay repair: {err}"
+                ),
+            })
     }
 
     fn repair_delaunay_with_flips_robust(
@@ -3971,11 +3997,18 @@ where
                 DelaunayRepairError::NonConvergent { .. }
                 | DelaunayRepairError::PostconditionFailed { .. },
             ) => {
-                if let Ok(stats) = self.repair_delaunay_with_flips_robust(None) {
-                    return Ok(DelaunayRepairOutcome {
-                        stats,
-                        heuristic: None,
-                    });
+                let tds_snapshot = self.tri.tds.clone();
+                match self
+                    .repair_delaunay_with_flips_robust(None)
+                    .and_then(|stats| self.canonicalize_orientation_after_repair().map(|()| stats))
+                {
+                    Ok(stats) => {
+                        return Ok(DelaunayRepairOutcome {
+                            stats,
+                            heuristic: None,
+                        });
+                    }
+                    Err(_) => self.tri.tds = tds_snapshot,
                 }
                 let base_seed = self.heuristic_rebuild_base_seed();
                 let seeds = config.resolve_seeds(base_seed);
@@ -4153,6 +4186,7 @@ where
                 let topology = candidate.tri.topology_guarantee();
                 let (tds, kernel) = (&mut candidate.tri.tds, &candidate.tri.kernel);
                 let stats = repair_delaunay_with_flips_k2_k3(tds, kernel, None, topology)?;
+                candidate.canonicalize_orientation_after_repair()?;
 
                 Ok::<_, DelaunayRepairError>((candidate, stats))
             })();
